@@ -6,7 +6,7 @@ T = {
  ("C01","a"): ("caught_after_strengthening","C01","C01:stream_numbering:cross_kind_id:session:/threads/{id}/messages","missed: needs an id of the WRONG kind (a thread message posted to a session or task id). C01 got a sweep of the 12 id-addressed writer routes x ids of every kind (72 cases). On the unchanged tree the sweep found a genuine defect first: POST /sessions/{id}/input on the session of a thread message's run started a second run on that stream (fix 7779cbe)"),
  ("C01","b"): ("caught_as_built","C01","C01:validated_replay_seq:quiescence:Message+Message",""),
  ("C01","c"): ("caught_after_strengthening","C01, C07","C01:stream_numbering:provider_termination ; C07:session_seq:provider_script","missed: a connection abort AFTER events were delivered. The scripted 'abort' never reached the client mid-stream (hyper saw chunk and error in one poll and reset the connection before sending anything), so only the before-first-byte path was exercised - in C07 too. The scripted provider now pauses before the abort (the number of aborts observed mid-stream is evidence, 0 is a machinery failure) and C01 sweeps the numbering through every non-[DONE] ending"),
- ("C04","a"): ("caught_as_built","C04","C04:wrong_answer:compaction_cut_points_v1:.mr.msgord.v1.bin:delete:tail=run_ended:after_fault_and_append",""),
+ ("C04","a"): ("caught_after_strengthening","C04","C04:wrong_answer:compaction_cut_points_v1:.mr.msgord.v1.bin:delete:tail=message:warm_fault_and_append","caught as built at first (the next append onto a deleted index). Fix 93ac88a then masked it in every existing phase: a fresh authority's first append re-derives the family, and every phase of C04 used a fresh authority. The change needs a fault under a RUNNING authority whose counter is warm - which the property's quantifier names. A warm-fault phase was added (warm-up append, fault on the live files, queries, append, queries); on the unchanged tree it found that an emptied messages+runs sidecar was served as an empty thread (fix 44d5b76) and one more known-finding class (KF-C04-C1w)"),
  ("C04","b"): ("caught_after_strengthening","C04","C04:wrong_answer:compiled_context:.mr.v1.jsonl:drop_last_line:tail=run_ended+foreign_last:after_fault_append_first","missed: needs the WHOLE family rolled back and the append as the first call after the restart. Added: whole-family roll-back faults, pairs of faults with attribution, and a phase in which the append is the first call on the faulted store. That phase showed on the unchanged tree that a stale member is extended by the first append (a hole nothing detects later): repaired by fix 93ac88a (the first append re-derives the family), which also closed known finding KF-C04-B. The change was re-ported onto the repaired function (patch_ported.diff: rebuild only when the sidecar tail is unreadable)"),
  ("C04","c"): ("caught_after_strengthening","C04","C04:non_termination:resolution_no_fault:none:thread_longer_than_tail_window","missed: the rotation target (and branch / handoff cut resolution) were not among C04's queries although the property names them. They now run as queries on stores of their own (truth once per history); the hang is reported by the watchdog on the 10 001-frame thread"),
  ("C05","a"): ("caught_after_strengthening","C05","C05:recovered_cache_not_transparent:replay_events:before[write events.jsonl]:in_flight=msg+sess","missed: needs ANOTHER run's session frames in the log between an op's log append and its first cache effect. 11 histories '<op>+sess' were added: the shim's callback finds the moment (before the family's .dirty marker is created) and a concurrent stub run logs its frames there; every file-system call of both is a crash point"),
